@@ -75,6 +75,10 @@ def tasks(tier, seed):
                 K1 = [S for S in F.extras(n1) if S not in X]
                 K2 = [S for S in F.extras(n2) if S not in X]
                 out.append(_seq_task([(n1, K1), (n2, K2), (n1, K1)], f"x-unknown-{n1}-{n2}"))
+    # larger player counts with almost everything known (more than 64 known coalitions; ids beyond one byte): the few unknown coalitions
+    # have flat max / min bounds over known values, so the run is cheap whatever n is
+    for n, unk in ((7, [3, 5, 24, 67, 96, 7, 56]), (8, [3, 129, 130, 192, 7, 224])) + (((9, [257, 258, 259, 384, 448, 3, 5]),) if tier == "thorough" else ()):
+        out.append(_seq_task([(n, [S for S in F.extras(n) if S not in unk])], f"almost-all-known-n{n}"))
     # seeded operation histories on one object per computer (state kept outside the value table, see harness/histories.py)
     for n in (3, 4, 5):
         fam, _ = F.family(n, tier, seed)
